@@ -252,6 +252,7 @@ func runC14(job *Job, res *Result) {
 		for _, c := range ids[1:] {
 			if flatOf[c] != flatOf[ids[0]] {
 				class = "other"
+				ids[1] = c // show a pair that the separator-less concatenation does not explain
 			}
 		}
 		if class == "concat-ambiguity" {
